@@ -28,6 +28,7 @@ type profile struct {
 	syncKinds  []string
 	nontrivial func(l labels) bool
 	finalDrain bool
+	fair       bool
 }
 
 func drawConfig(rt *rapid.T, p *profile) worldConfig {
@@ -100,6 +101,7 @@ func runCase(t *testing.T, rt *rapid.T, p *profile) *caseResult {
 		}()
 		w = newWorld(rt, cfg)
 		w.m.autoTick = rapid.Bool().Draw(rt, "autoTick")
+		w.m.fair = p.fair
 		w.m.observe()
 		n := rapid.IntRange(p.minSteps, p.maxSteps).Draw(rt, "steps")
 		for i := 0; i < n; i++ {
@@ -194,6 +196,33 @@ func (w *world) doStep(op string, p *profile) {
 		w.advance(rapid.SampledFrom([]time.Duration{time.Nanosecond, time.Millisecond, time.Second, 2 * time.Second}).Draw(w.rt, "advance"))
 	case "tick":
 		w.stepTick()
+	case "fairPick":
+		// A worker that believes to be idle asks for work.
+		var cands []*workerSim
+		for _, wk := range w.workers {
+			if wk.inFlight == nil && wk.believes == nil {
+				cands = append(cands, wk)
+			}
+		}
+		if len(cands) > 0 {
+			wk := cands[rapid.IntRange(0, len(cands)-1).Draw(w.rt, "worker")]
+			w.sync(wk, "idle", false, "")
+		}
+	case "fairComplete":
+		// A worker reports completion and asks to be left idle, so that
+		// its next request for work is a separate call.
+		var cands []*workerSim
+		for _, wk := range w.workers {
+			if wk.inFlight == nil && wk.believes != nil {
+				cands = append(cands, wk)
+			}
+		}
+		if len(cands) > 0 {
+			wk := cands[rapid.IntRange(0, len(cands)-1).Draw(w.rt, "worker")]
+			w.sync(wk, "completed", true, rapid.SampledFrom([]string{"ok", "ok", "ok", "exit1"}).Draw(w.rt, "completion"))
+		}
+	case "fairAdvance":
+		w.advance(rapid.SampledFrom([]time.Duration{time.Nanosecond, time.Second, time.Second, 5 * time.Second, 11 * time.Second, 21 * time.Second, 31 * time.Second, 45 * time.Second}).Draw(w.rt, "advance"))
 	default:
 		panic("harness: unknown step " + op)
 	}
